@@ -601,7 +601,10 @@ class Body:
             if rv["k"] != "agg" or rv.get("what") != "adt" or "variant" not in rv:
                 return None
             if rv["variant"] == projs[0]["dc"] and projs[1]["f"] < len(rv["ops"]):
-                ops_.append(rv["ops"][projs[1]["f"]])
+                o = rv["ops"][projs[1]["f"]]
+                # jump threading duplicates blocks: the same literal operand counted once
+                if not any(_same_operand(o, x) for x in ops_):
+                    ops_.append(o)
         return ops_, projs[2:]
 
     def rv_atoms(self, rv, depth=0, _seen=None, interproc=None):
@@ -877,6 +880,12 @@ class Body:
     def site(self, bb):
         src = self.blocks[bb].get("src")
         return "%s:%s" % (src["file"] if src else self.fn["file"], self.line_of(bb))
+
+
+def _same_operand(a, b):
+    if a.get("k") == "const" or b.get("k") == "const":
+        return a.get("k") == b.get("k") and a.get("val") == b.get("val") and a.get("uneval") == b.get("uneval")
+    return _place_key(a["pl"]) == _place_key(b["pl"])
 
 
 SIZES = {"u8": 1, "i8": 1, "bool": 1, "u16": 2, "i16": 2, "u32": 4, "i32": 4, "u64": 8, "i64": 8, "usize": 8, "isize": 8}
